@@ -4,7 +4,8 @@
 #   1. demonstration passes on the unchanged tree
 #   2. patch applies, project builds
 #   3. demonstration fails with the patch
-#   4. the existing tests of every package (whole suite) still pass with the patch (demo removed)
+#   4. the existing tests still pass with the patch (demo removed): every package that imports a
+#      patched package, directly, transitively or from its tests (SEEDSUITE=all: every package)
 # Everything happens in a scratch worktree under /tmp which is removed afterwards.
 # Output: /tmp/seedcheck/<prop>-<k>.log and a one-line verdict on stdout.
 set -u
@@ -33,8 +34,18 @@ go build ./... || fail "does not build with patch"
 echo "### demo with patch"
 if go test -count=1 -run "^($TESTS)\$" "./$DP"; then fail "demo passes with the patch"; fi
 rm "$DP/zz_seed_demo_test.go"
-echo "### whole suite with patch"
-go test -count=1 -vet=off -timeout 25m ./... 2>&1 | grep -v 'no test files' | tee /tmp/seedcheck/$P-$K.suite | tail -40
+# SEEDSUITE=all: every package; default: every package that (transitively, or from its tests)
+# imports a patched package, plus the patched packages themselves
+if [ "${SEEDSUITE:-affected}" = all ]; then
+  SUITE=./...
+else
+  PATCHED=$(git diff --name-only | xargs -n1 dirname | sort -u | sed 's#^#github.com/gotd/td/#; s#/\.$##')
+  SUITE=$(go list -f '{{.ImportPath}} {{join .Deps " "}} {{join .TestImports " "}} {{join .XTestImports " "}}' ./... 2>/dev/null | awk -v pat="$PATCHED" 'BEGIN{n=split(pat,a,"\n"); for(i=1;i<=n;i++) want[a[i]]=1} {for(i=1;i<=NF;i++) if($i in want){print $1; break}}' | sort -u)
+  [ -n "$SUITE" ] || SUITE=./...
+  echo "suite restricted to $(echo "$SUITE" | wc -w) affected packages"
+fi
+echo "### existing tests with patch"
+go test -count=1 -vet=off -timeout 25m $SUITE 2>&1 | grep -v 'no test files' | tee /tmp/seedcheck/$P-$K.suite | tail -40
 if grep -qE '^(FAIL|---\s*FAIL|panic:)' /tmp/seedcheck/$P-$K.suite; then
   # the machine is shared and some timing-sensitive tests are flaky under load: re-run the failing
   # packages alone, twice; a package that passes both re-runs is counted as a flake
